@@ -5,6 +5,20 @@ use std::collections::BTreeMap;
 
 pub type Leaves = BTreeMap<String, Option<f64>>;
 
+// Rounding noise of f32 arithmetic, as an absolute allowance in kWh for the building under examination: 3e-6 x the sum of all
+// uses and productions of the largest evaluation seen since `reset_noise()` (f32 epsilon 1.2e-7 x the largest weighting factor
+// x a few operations per term). Below 1e-4 for the enumerated small buildings; it matters for results that are differences of
+// large terms (10 000 kWh of production added to a building that uses 0.02 kWh).
+thread_local! { static NOISE: std::cell::Cell<f64> = std::cell::Cell::new(0.0); }
+pub fn reset_noise() { NOISE.with(|n| n.set(0.0)); }
+pub fn noise() -> f64 { NOISE.with(|n| n.get()) }
+pub fn note_magnitude(ep: &EnergyPerformance) {
+    let mag: f64 = ep.balance_cr.values().map(|b| (b.used.epus_an + b.used.nepus_an + b.used.cgnus_an + b.prod.an) as f64).sum();
+    NOISE.with(|n| n.set(n.get().max(3e-6 * mag)));
+}
+/// is a ratio whose denominator is `den` kWh meaningful (rounding noise below 1e-3 of it)?
+pub fn ratio_ok(den: f64) -> bool { den > 1e-2 && noise() / den < 1e-3 }
+
 fn flat(v: &Value, path: &str, out: &mut Leaves) {
     match v {
         Value::Number(n) => { out.insert(path.to_string(), n.as_f64()); }
@@ -31,7 +45,7 @@ pub fn results(ep: &EnergyPerformance, annual_only: bool) -> Leaves {
     let tot = (ep.balance.we.b.ren + ep.balance.we.b.nren).abs();
     of(ep).into_iter().filter(|(p, _)| {
         !(p.starts_with("components") || p.starts_with("wfactors") || p.starts_with("misc") || p == "k_exp" || p == "arearef")
-            && !(p.starts_with("rer") && tot < 1e-2)
+            && !(p.starts_with("rer") && !ratio_ok(tot as f64))
             && !(annual_only && p.contains('['))
     }).collect()
 }
@@ -39,12 +53,13 @@ pub fn results(ep: &EnergyPerformance, annual_only: bool) -> Leaves {
 pub fn diff(a: &Leaves, b: &Leaves, scale: f64) -> Option<String> {
     for (p, x) in a {
         match (x, b.get(p)) {
-            (Some(x), Some(Some(y))) => if !close(x * scale, *y, if rounded(p) { 5.5e-4 * (scale.abs() + 1.0) } else { 0.0 }) { return Some(format!("{}: {} vs {}", p, x * scale, y)); },
+            (Some(x), Some(Some(y))) => if !close(x * scale, *y, (if rounded(p) { 5.5e-4 * (scale.abs() + 1.0) } else { 0.0 }) + if p.starts_with("rer") || p.contains("f_match") { 0.0 } else { noise() * scale.abs().max(1.0) }) { return Some(format!("{}: {} vs {}", p, x * scale, y)); },
             (None, Some(None)) => {}
+            (_, None) if p.starts_with("rer") => {} // a renewable share left out on one side (denominator within rounding noise)
             (x, y) => return Some(format!("{}: {:?} vs {:?}", p, x, y)),
         }
     }
-    b.keys().find(|p| !a.contains_key(*p)).map(|p| format!("{}: absent vs {:?}", p, b[p]))
+    b.keys().find(|p| !a.contains_key(*p) && !p.starts_with("rer")).map(|p| format!("{}: absent vs {:?}", p, b[p]))
 }
 /// does the path name a figure that C03 says does not depend on k_exp: a final-energy flow (used, produced, delivered, exported)
 /// or a part of the step A result (weighted delivered energy, step A weighted exported energy, step A, step A by service)?
